@@ -162,8 +162,9 @@ class Injector:
     """interrupts the k-th call among shutil.copy / shutil.copyfile / shutil.copy2 / os.replace / os.rename made while
     active; optional listing order for os.listdir of the installed folder"""
 
-    def __init__(self, k=None, mode=None, order=None):
+    def __init__(self, k=None, mode=None, order=None, on_hit=None):
         self.k, self.mode, self.order = k, mode, order
+        self.on_hit = on_hit          # if given: called (blocks) at the chosen point instead of interrupting
         self.trace = []
 
     def __enter__(self):
@@ -174,30 +175,36 @@ class Injector:
                      "replace": os.replace, "rename": os.rename, "listdir": os.listdir,
                      "hc_copyfile": hc.copyfile}
         real = self.real
-        depth = [0]
+        tl = threading.local()
+
+        def stop(what):
+            if inj.on_hit:
+                inj.on_hit(what)
+            else:
+                raise Interrupt(what)
 
         def wrap(kind, fn, is_copy):
             def f(src, dst, *a, **kw):
-                if depth[0]:                       # shutil.copy calls shutil.copyfile internally: count once
+                if getattr(tl, "depth", 0):        # shutil.copy calls shutil.copyfile internally: count once
                     return fn(src, dst, *a, **kw)
                 inj.trace.append((kind, os.path.basename(str(dst))))
                 hit = len(inj.trace) - 1 == inj.k
                 if hit and inj.mode == "before":
-                    raise Interrupt(f"before {kind}")
+                    stop(f"before {kind}")
                 if hit and inj.mode == "truncated" and is_copy:
                     target = os.path.join(dst, os.path.basename(src)) if os.path.isdir(dst) else dst
                     with open(src, "rb") as fp:
                         data = fp.read()
                     with open(target, "wb") as fp:
                         fp.write(data[: len(data) // 2])
-                    raise Interrupt(f"inside {kind}")
-                depth[0] += 1
+                    stop(f"inside {kind}")
+                tl.depth = getattr(tl, "depth", 0) + 1
                 try:
                     r = fn(src, dst, *a, **kw)
                 finally:
-                    depth[0] -= 1
-                if hit:
-                    raise Interrupt(f"after {kind}")
+                    tl.depth -= 1
+                if hit and inj.mode == "after":
+                    stop(f"after {kind}")
                 return r
             return f
 
@@ -230,7 +237,7 @@ class Injector:
         return False
 
 
-ORDERS = {"sorted": None, "8.3.0 last": ["LAST", "HED8.3.0.xml"], "8.3.0 first": ["HED8.3.0.xml"]}
+ORDERS = {"os order": None, "8.3.0 last": ["LAST", "HED8.3.0.xml"], "8.3.0 first": ["HED8.3.0.xml"]}
 
 
 def crash_job(job):
@@ -298,6 +305,63 @@ def crash_job(job):
             fails.append((label, inp, {"error": rep, "not_identical": bad, "stray_schema_named_files": stray},
                           "every bundled file present and byte-identical"))
     return (json.dumps(inp), True, fails)
+
+
+def concurrent_job(job):
+    """a populating holder is paused at one file operation; meanwhile a loader runs; then the holder finishes"""
+    import hed.schema.hed_cache as hc
+    k, mode, order_name = job["k"], job["mode"], job["order"]
+    inst = installed_files()
+    fails = []
+    with Env() as env:
+        d = env.new_cache()
+        inp = {"kind": "concurrent", "call_index": k, "mode": mode, "listing_order": order_name}
+        paused, resume = threading.Event(), threading.Event()
+        res = {}
+
+        def on_hit(what):
+            paused.set()
+            resume.wait(60)
+
+        def populate():
+            try:
+                res["populator"] = hc.cache_local_versions(d)
+            except BaseException as e:
+                res["populator"] = type(e).__name__ + ": " + str(e)[:100]
+            paused.set()
+
+        with Injector(k, mode, ORDERS[order_name], on_hit=on_hit) as inj:
+            th = threading.Thread(target=populate)
+            th.start()
+            paused.wait(60)
+            inp["cache_state_seen_by_loader"] = dir_state(d)
+            if k < len(inj.trace):
+                inp["call"], inp["victim_file"] = inj.trace[k]
+            load = try_load("8.3.0")
+            resume.set()
+            th.join(60)
+        if load != ("ok", True):
+            state = inp["cache_state_seen_by_loader"] or {}
+            fname = "HED8.3.0.xml"
+            if fname in state and state[fname] != len(inst[fname]):
+                label = "C19.crash.D15_torn_copy_is_served"
+            elif fname not in state:
+                label = "C19.concurrent.loader_fails_while_population_in_progress"
+            else:
+                label = "C19.concurrent.load_during_population"
+            fails.append((label, inp, {"load": load[0], "detail": load[1]}, "load succeeds and equals the bundled schema"))
+        got = {f: open(os.path.join(d, f), "rb").read() for f in os.listdir(d) if os.path.isfile(os.path.join(d, f))}
+        bad = sorted(f for f in inst if got.get(f) != inst[f])
+        stray = sorted(f for f in got if f not in inst and f not in BOOKKEEPING)
+        if res.get("populator") is not None or bad or stray:
+            fails.append(("C19.concurrent.final_state_byte_identical", inp,
+                          {"populator_returned": res.get("populator"), "not_identical": bad, "unexpected_files": stray},
+                          "population finishes; byte-identical copies only"))
+    return (json.dumps(inp), True, fails)
+
+
+def pool_job(job):
+    return concurrent_job(job) if job.get("concurrent") else crash_job(job)
 
 
 def trace_of_population(order_name):
@@ -641,13 +705,13 @@ def part_lock(w):
 def run(w: Workload):
     w.rule = ("crash points: every call of shutil.copy*/os.replace/os.rename made by cache_local_versions on an empty temp cache "
               "x {interrupt before, after, after half of the destination was written} x listing orders of the installed folder "
-              "{sorted, HED8.3.0.xml last, first}; every crash point is a distinct cache state; then load_schema_version of 8.3.0 "
+              "{as listed by the OS, HED8.3.0.xml last, first}; every crash point is a distinct cache state; then load_schema_version of 8.3.0 "
               "and of the version whose file was hit; + 11 hand-made left-behind states; + lock probes (nested / threads / "
               "processes / refresh interval x 4 / 9 garbage timestamps x 2 entry points)")
     n_pop = part_population(w)
     n_states = part_states(w)
     n_lock = part_lock(w)
-    orders = ["sorted", "8.3.0 last"] if w.quick else list(ORDERS)
+    orders = ["os order", "8.3.0 last"] if w.quick else list(ORDERS)
     jobs = []
     for o in orders:
         tr = trace_of_population(o)
@@ -656,23 +720,33 @@ def run(w: Workload):
                 if mode == "truncated" and kind in ("replace", "rename"):
                     continue
                 jobs.append({"k": k, "mode": mode, "order": o})
+    n_crash = len(jobs)
+    for o in orders[:1] if w.quick else orders:
+        tr = trace_of_population(o)
+        for k, (kind, _) in enumerate(tr):
+            for mode in ("before", "after", "truncated"):
+                if mode == "truncated" and kind in ("replace", "rename"):
+                    continue
+                jobs.append({"k": k, "mode": mode, "order": o, "concurrent": True})
     import multiprocessing as mp
     nproc = min(14, max(1, (os.cpu_count() or 2) - 2))
     with mp.get_context("fork").Pool(nproc) as pool:
-        results = pool.map(crash_job, jobs, chunksize=1)
+        results = pool.map(pool_job, jobs, chunksize=1)
     for key, nontrivial, fails in results:
         w.case(key=key, nontrivial=nontrivial, sample=json.loads(key))
         for clause, inp, obs, exp in fails:
             w.fail(clause, inp, obs, exp)
     w.part("un-interrupted population", cases=n_pop, bound="4 entry points on an empty / missing temp cache directory", exhaustive=True)
-    w.part("interrupted population", cases=len(jobs),
+    w.part("loader concurrent with a populating lock holder paused at one file operation (threads in one process)",
+           cases=len(jobs) - n_crash, bound="every file operation x {before, after, mid-copy}", exhaustive=True)
+    w.part("interrupted population", cases=n_crash,
            bound="every file operation of the population x 3 interruption modes x %d listing orders" % len(orders), exhaustive=True)
     w.part("left-behind cache states", cases=n_states, bound="11 hand-made states", exhaustive=False)
     w.part("CacheLock probes", cases=n_lock, bound="nested/threads/processes, 4 interval settings, 9 timestamp contents x 2 entry points",
            exhaustive=False)
     w.not_covered += [
-        "true multi-process schedules (two populating processes + one loader interleaved at file-operation granularity): the state a "
-        "concurrent loader can see while another process is inside a copy is represented by the 'truncated' crash state only",
+        "true multi-process schedules: only ONE loader against ONE populating lock holder paused at each file operation is explored "
+        "(threads of one process; flock excludes between descriptors); two simultaneous populators are only probed for exclusion",
         "the download path (_cache_specific_url / _safe_move_tmp_to_folder / sha comparison) - no network; get_library_data's cache",
         "prerelease sub-directory; library schema loads after a crash (only standard versions are re-loaded)",
         "lock timeouts other than the built-in 1 s; NFS / non-POSIX lock semantics",
@@ -688,6 +762,13 @@ def run(w: Workload):
 def replay(w: Workload, case: dict):
     inp = case["input"]
     kind = inp.get("kind")
+    if kind == "concurrent":
+        key, nontrivial, fails = concurrent_job({"k": inp["call_index"], "mode": inp["mode"], "order": inp["listing_order"]})
+        w.case(key=key, nontrivial=nontrivial)
+        for clause, i2, obs, exp in fails:
+            if clause == case["clause"]:
+                w.fail(clause, i2, obs, exp)
+        return
     if kind == "crash":
         key, nontrivial, fails = crash_job({"k": inp["call_index"], "mode": inp["mode"], "order": inp["listing_order"]})
         w.case(key=key, nontrivial=nontrivial)
